@@ -8,7 +8,7 @@ structure SysW where
   sys : Sys := {}
 
 def showSys (s : Sys) : String :=
-  s!"S[{showSend s.send}] R[{showRecv s.recv} gone={showB s.recvGone}] wire={s.wire.length} rwire={s.resetWire.length} bytes={s.deliveredBytes.length} ends={s.endEvents} resets={s.resetEvents}"
+  s!"S[{showSend s.send}] R[{showRecv s.recv} gone={showB s.recvGone}] sgone={showB s.sendGone} wire={s.wire.length} rwire={s.resetWire.length} bytes={s.deliveredBytes.length} ends={s.endEvents} resets={s.resetEvents}"
 
 def showFr (f : OutFrame) : String := s!"off={f.offset} data={hexOut f.data} fin={showB f.fin}"
 
@@ -68,6 +68,7 @@ def stepSys (w : SysW) : List String → SysW × String
   | ["sys.ackreset"] => doSys w .ackReset
   | ["sys.losereset"] => doSys w .loseReset
   | ["sys.discard"] => doSys w .discardRecv
+  | ["sys.senddiscard"] => doSys w .discardSend
   | _ => (w, "bad-op")
 
 end Drv
